@@ -22,7 +22,7 @@ OPEN = {
             "byte-identical second serialisation and the order inside a key list: FALSE in general (known findings D20, D9-K1); keys are compared as sets, a map's keys are the reader's keys"],
     "C04": ["ufloat_rt x (FRAME-RATE) / float_rt x (TIME-OFFSET) for every f32 with at most 3 decimals: C04_roundtrip holds for every parse result under this decidable hypothesis on the modelled std float conversions; the hypothesis itself is not a theorem (evaluated on examples, exercised by the correspondence check)"],
     "C05": ["C05_cost: cost_parse s <= c1*|s| + c2*|items s|*K s -- no cost model was built; time scaling is MEASURED in the thorough tier (five input families at n and 4n, evidence field streams.time_scaling), not proved"],
-    "C12": ["C12_restyle as ONE theorem over whole playlists: forall sty1 sty2 a, parse (render sty1 a) = parse (render sty2 a) -- proved per transformation: CRLF, blank lines, line padding, comments, redundant version tags, unknown tags (arbitrary text / item lists), and, for every attribute-list parser, any attribute order + any padding + unknown attributes (C12_any_attribute_syntax); the relative order of playlist-level tags and of the non-key tags of a segment is sampled, not proved"],
+    "C12": ["C12_restyle as ONE theorem over whole playlists: forall sty1 sty2 a, parse (render sty1 a) = parse (render sty2 a) -- proved per transformation: CRLF, blank lines, line padding, comments, redundant version tags, unknown tags (arbitrary text / item lists), and, for every attribute-list parser, any attribute order + any padding + unknown attributes (C12_any_attribute_syntax); the relative order of playlist-level tags and of the non-key tags of a segment is C12_tag_order (item level, media playlists; EXT-X-KEY and DISCONTINUITY-SEQUENCE excluded because they are position dependent); for master playlists the five lists are independent by construction (C02_source_order)"],
     "C14": ["C14_T for EXT-X-KEY / STREAM-INF as an iff over all attribute lists: only the invariant direction is proved for keys; stream tags are by typing (BANDWIDTH / URI are required fields of the result)"],
     "C16": ["C16_slide is proved for the restatement the WRITER produces for the slid value (keys and maps re-announced by the library itself); a server that restates tags differently (e.g. repeats all keys in another order) is covered by C06/C12 only; wf_media carries the float/duration hypotheses"],
     "C18": ["C18_float / C18_ufloat / C18_duration: parse (print v) = v for every finite f32 and every duration below 10^6 s -- rests on the modelled std float conversions; enters the tag theorems as the decidable hypotheses float_rt / ufloat_rt / dur_rt (evaluated on sample values in C18_float_hypotheses), validated by correspondence and sweep, not proved"],
